@@ -1,6 +1,6 @@
 (** C16 — non-vacuity: concrete instances of every hypothesis; the model and the generator run on literals. *)
 From Coq Require Import ZArith List Bool Lia.
-From RlibV Require Import C03.Model C03.Corr C16.Model C16.Corr C16.Proofs C16.Properties.
+From RlibV Require Import C03.Model C03.Corr C16.Model C16.ModelFam C16.Corr C16.Proofs C16.Properties.
 Import ListNotations.
 Open Scope Z_scope.
 
@@ -43,3 +43,13 @@ Example ex_height : height (fam step_append (2 ^ 3)) <= 5 * Z.log2 (2 ^ 3 + 1) +
 Proof. assert (Hk : 0 <= 3 <= 14) by lia. destruct (c16_height_partial 3 Hk) as ((H1 & _) & _). exact H1. Qed.
 Example ex_height_value : height (fam step_append 8) = 5 /\ height (fam step_rotate 1024) = 23.
 Proof. split; vm_compute; reflexivity. Qed.
+
+(** c16_height_tight_partial at k = 4: the middle-insert family; the heights the executor reports for the same families at 4096 *)
+Example ex_height_tight : height (fam step_middle (2 ^ 4)) <= 3 * Z.log2 (2 ^ 4 + 1) + 12.
+Proof.
+  assert (Hk : 0 <= 4 <= 13) by lia.
+  pose proof (c16_height_tight_partial 4 Hk) as H. cbv zeta in H.
+  rewrite Forall_forall in H. apply (H step_middle). simpl. tauto.
+Qed.
+Example ex_height_tight_values : (height (fam step_deque 4096), height (fam step_middle 4096), height (fam step_mergebuild 4096)) = (25, 25, 25).
+Proof. vm_compute. reflexivity. Qed.
